@@ -14,12 +14,15 @@ package main
 
 import (
 	"fmt"
+	"math"
 	"math/big"
 	"math/rand"
+	"runtime"
 	"sort"
 	"strconv"
 	"strings"
 	"time"
+	"unsafe"
 
 	"git.metabarcoding.org/obitools/obitools4/obitools4/pkg/obifp"
 	"git.metabarcoding.org/obitools/obitools4/obitools4/pkg/obikmer"
@@ -317,78 +320,86 @@ func (c19) Gen(rng *rand.Rand, tier string, emit func(string)) {
 	}
 	// ---- graphs
 	for i := 0; i < 2200*n; i++ {
-		var k int
-		switch rng.Intn(6) {
-		case 0, 1, 2:
-			k = 2 + rng.Intn(4)
-		case 3:
-			k = 6 + rng.Intn(8)
-		case 4:
-			k = 14 + rng.Intn(18)
-		default:
-			k = 2 + rng.Intn(30)
-		}
-		alpha := "acgt"
-		if k <= 4 && rng.Intn(2) == 0 {
-			alpha = "cgt"[:2+rng.Intn(2)] // few letters, small k: dense graphs with many branches
-		}
-		tl := k + rng.Intn(3*k+8)
-		if rng.Intn(6) == 0 {
-			tl = rng.Intn(k + 2)
-		}
-		tpl := c19RandSeq(rng, tl, alpha, 0)
-		if rng.Intn(5) == 0 && tl > k+2 {
-			// a repeat inside the template: branches or cycles
-			a := rng.Intn(tl - k)
-			tpl = append(tpl, tpl[a:a+k-1+rng.Intn(2)]...)
-			tpl = append(tpl, c19RandSeq(rng, rng.Intn(6), alpha, 0)...)
-		}
-		nr := 1 + rng.Intn(5)
-		if rng.Intn(4) == 0 {
-			nr = 1
-		}
-		var reads [][]byte
-		var counts []int
-		for r := 0; r < nr; r++ {
-			rd := append([]byte{}, tpl...)
-			// substitutions, truncations
-			for m := rng.Intn(3); m > 0 && len(rd) > 0 && r > 0; m-- {
-				rd[rng.Intn(len(rd))] = alpha[rng.Intn(len(alpha))]
-			}
-			if len(rd) > 0 {
-				switch rng.Intn(8) {
-				case 0:
-					rd = rd[:rng.Intn(len(rd)+1)]
-				case 1:
-					if len(rd) >= k {
-						a := rng.Intn(len(rd) - k + 1)
-						rd = rd[a : a+k] // exactly k bases
-					}
-				case 2:
-					rd = rd[rng.Intn(len(rd)):]
-				}
-			}
-			// ambiguity codes: at most three per read (the expansion is exponential)
-			if rng.Intn(4) == 0 && len(rd) > 0 {
-				for m := 1 + rng.Intn(3); m > 0; m-- {
-					rd[rng.Intn(len(rd))] = c19Amb[rng.Intn(len(c19Amb))]
-				}
-			}
-			if rng.Intn(30) == 0 && len(rd) > 0 {
-				rd[rng.Intn(len(rd))] = 'u'
-			}
-			if rng.Intn(150) == 0 && len(rd) > 0 {
-				rd[rng.Intn(len(rd))] = ".-x"[rng.Intn(3)]
-			}
-			c := 1
-			if rng.Intn(2) == 0 {
-				c = 1 + rng.Intn(20)
-			}
-			reads = append(reads, rd)
-			counts = append(counts, c)
-		}
+		k, reads, counts := c19GenGraph(rng)
 		emit(fmt.Sprintf("g %d%s", k, c19Reads(reads, counts)))
 	}
+	c19GenMore(rng, n, emit)
+	c19GenKM(rng, n, emit)
+}
+
+// one random graph case: k, reads derived from a template, counts
+func c19GenGraph(rng *rand.Rand) (int, [][]byte, []int) {
+	var k int
+	switch rng.Intn(6) {
+	case 0, 1, 2:
+		k = 2 + rng.Intn(4)
+	case 3:
+		k = 6 + rng.Intn(8)
+	case 4:
+		k = 14 + rng.Intn(18)
+	default:
+		k = 2 + rng.Intn(30)
+	}
+	alpha := "acgt"
+	if k <= 4 && rng.Intn(2) == 0 {
+		alpha = "cgt"[:2+rng.Intn(2)] // few letters, small k: dense graphs with many branches
+	}
+	tl := k + rng.Intn(3*k+8)
+	if rng.Intn(6) == 0 {
+		tl = rng.Intn(k + 2)
+	}
+	tpl := c19RandSeq(rng, tl, alpha, 0)
+	if rng.Intn(5) == 0 && tl > k+2 {
+		// a repeat inside the template: branches or cycles
+		a := rng.Intn(tl - k)
+		tpl = append(tpl, tpl[a:a+k-1+rng.Intn(2)]...)
+		tpl = append(tpl, c19RandSeq(rng, rng.Intn(6), alpha, 0)...)
+	}
+	nr := 1 + rng.Intn(5)
+	if rng.Intn(4) == 0 {
+		nr = 1
+	}
+	var reads [][]byte
+	var counts []int
+	for r := 0; r < nr; r++ {
+		rd := append([]byte{}, tpl...)
+		// substitutions, truncations
+		for m := rng.Intn(3); m > 0 && len(rd) > 0 && r > 0; m-- {
+			rd[rng.Intn(len(rd))] = alpha[rng.Intn(len(alpha))]
+		}
+		if len(rd) > 0 {
+			switch rng.Intn(8) {
+			case 0:
+				rd = rd[:rng.Intn(len(rd)+1)]
+			case 1:
+				if len(rd) >= k {
+					a := rng.Intn(len(rd) - k + 1)
+					rd = rd[a : a+k] // exactly k bases
+				}
+			case 2:
+				rd = rd[rng.Intn(len(rd)):]
+			}
+		}
+		// ambiguity codes: at most three per read (the expansion is exponential)
+		if rng.Intn(4) == 0 && len(rd) > 0 {
+			for m := 1 + rng.Intn(3); m > 0; m-- {
+				rd[rng.Intn(len(rd))] = c19Amb[rng.Intn(len(c19Amb))]
+			}
+		}
+		if rng.Intn(30) == 0 && len(rd) > 0 {
+			rd[rng.Intn(len(rd))] = 'u'
+		}
+		if rng.Intn(150) == 0 && len(rd) > 0 {
+			rd[rng.Intn(len(rd))] = ".-x"[rng.Intn(3)]
+		}
+		c := 1
+		if rng.Intn(2) == 0 {
+			c = 1 + rng.Intn(20)
+		}
+		reads = append(reads, rd)
+		counts = append(counts, c)
+	}
+	return k, reads, counts
 }
 
 // ---------------------------------------------------------------------------------------------
@@ -635,6 +646,29 @@ func (c19) Exec(c string) (string, []Fail) {
 			}
 			return fmt.Sprintf("k=%d sp=%d %s", gk, gsp, out)
 		// ------------------------------------------------------------------------------------
+		case f[0] == "km" && len(f) >= 9:
+			return c19ExecKM(f, fail)
+		case f[0] == "gf" && len(f) >= 3:
+			// result: mw=<MaxWeight> len=<Len> followed by the result of g on the filtered graph
+			k, e1 := strconv.Atoi(f[1])
+			mn, e2 := strconv.Atoi(f[2])
+			reads, counts, ok := c19ParseReads(f[3:])
+			if e1 != nil || e2 != nil || !ok || k < 1 || k > 32 || mn < -1000000 || mn > 1000000 {
+				return "bad-op"
+			}
+			return c19Graph(k, reads, counts, fail, &mn)
+		case f[0] == "gc" && len(f) >= 4:
+			// result: mw=<MaxWeight> len=<Len> cons=<hexseq|err|panic>
+			k, e1 := strconv.Atoi(f[1])
+			bits, e2 := strconv.ParseUint(f[2], 16, 64)
+			reads, counts, ok := c19ParseReads(f[4:])
+			mc := math.Float64frombits(bits)
+			if e1 != nil || e2 != nil || len(f[2]) != 16 || !ok || k < 1 || k > 32 || !(mc > 0) || math.IsInf(mc, 0) {
+				return "bad-op"
+			}
+			obs, res := c19Cov(k, mc, reads, counts, fail)
+			caseOverride = fmt.Sprintf("gc %d %s %s%s", k, f[2], obs, c19Reads(reads, counts))
+			return res
 		case f[0] == "g" && len(f) >= 2:
 			// result: n=<node:weight:nextsmask:prevmask,...> cyc=<0|1> path=<node,...|nil|panic> cons=<hexseq|err|panic>
 			// (nodes in hexadecimal, ascending; mask bit b = successor/predecessor obtained with base b exists), or "panic"
@@ -658,7 +692,7 @@ func (c19) Exec(c string) (string, []Fail) {
 				reads = append(reads, s)
 				counts = append(counts, cnt)
 			}
-			return c19Graph(k, reads, counts, fail)
+			return c19Graph(k, reads, counts, fail, nil)
 		}
 		return "bad-op"
 	})
@@ -678,7 +712,7 @@ func c19RcLoose(s []byte) string {
 	return string(o)
 }
 
-func c19Graph(k int, reads [][]byte, counts []int, fail func(sig, format string, a ...any)) string {
+func c19Graph(k int, reads [][]byte, counts []int, fail func(sig, format string, a ...any), filt *int) string {
 	g := obikmer.MakeDeBruijnGraph(k)
 	lows := make([][]byte, len(reads))
 	inTable, ambig, hasEqK := true, false, false
@@ -780,6 +814,56 @@ func c19Graph(k int, reads [][]byte, counts []int, fail func(sig, format string,
 			}
 			fail(cls, "k=%d: graph holds %d k-mers %v, expected %d: %v", k, len(nodes), c19ShowNodes(nodes, keys, k), len(want), want)
 		}
+	}
+
+	// ---- FilterMinWeight, MaxWeight, Len (gf)
+	prefix := ""
+	if filt != nil {
+		before := nodes
+		if c19Try(func() { g.FilterMinWeight(*filt) }) {
+			fail("filter.panic", "FilterMinWeight(%d) panics", *filt)
+			return "panic-filter"
+		}
+		nodes = g.VerifNodes()
+		keys = keys[:0]
+		for n := range nodes {
+			keys = append(keys, n)
+		}
+		sort.Slice(keys, func(i, j int) bool { return keys[i] < keys[j] })
+		want := map[uint64]uint{}
+		maxw := uint(0)
+		for n, w := range before {
+			if *filt >= 0 && w >= uint(*filt) {
+				want[n] = w
+				if w > maxw {
+					maxw = w
+				}
+			}
+		}
+		bad := len(want) != len(nodes)
+		for n, w := range want {
+			if nodes[n] != w {
+				bad = true
+			}
+		}
+		if bad {
+			fail("filter.value", "FilterMinWeight(%d) leaves %d nodes, expected the %d nodes of weight >= %d with their weights", *filt, len(nodes), len(want), *filt)
+		}
+		if g.MaxWeight() != int(maxw) {
+			fail("maxweight.value", "MaxWeight = %d, largest weight %d", g.MaxWeight(), maxw)
+		}
+		if g.Len() != len(nodes) {
+			fail("len.value", "Len = %d, %d nodes", g.Len(), len(nodes))
+		}
+		switch {
+		case len(nodes) == len(before):
+			stat("gf:removed-none")
+		case len(nodes) == 0:
+			stat("gf:removed-all")
+		default:
+			stat("gf:removed-some")
+		}
+		prefix = fmt.Sprintf("mw=%d len=%d ", g.MaxWeight(), g.Len())
 	}
 
 	// ---- nodes, Nexts, Previouses
@@ -981,7 +1065,7 @@ func c19Graph(k int, reads [][]byte, counts []int, fail func(sig, format string,
 		consStr = hx(cons.Sequence())
 	}
 	// single read without repeated k-mer comes back unchanged
-	if len(reads) == 1 && k >= 2 && k <= 31 && len(lows[0]) >= k {
+	if filt == nil && len(reads) == 1 && k >= 2 && k <= 31 && len(lows[0]) >= k {
 		r := lows[0]
 		plain := true
 		for _, b := range r {
@@ -1020,7 +1104,7 @@ func c19Graph(k int, reads [][]byte, counts []int, fail func(sig, format string,
 			}
 		}
 	}
-	return fmt.Sprintf("n=%s cyc=%d path=%s cons=%s", nodeStr, map[bool]int{false: 0, true: 1}[cyc], pathStr, consStr)
+	return prefix + fmt.Sprintf("n=%s cyc=%d path=%s cons=%s", nodeStr, map[bool]int{false: 0, true: 1}[cyc], pathStr, consStr)
 }
 
 func c19Bucket(n int) int {
@@ -1045,4 +1129,618 @@ func c19ShowNodes(nodes map[uint64]uint, keys []uint64, k int) string {
 		fmt.Fprintf(&b, " %s:%d", c19Str(n, k), nodes[n])
 	}
 	return b.String()
+}
+
+// ---------------------------------------------------------------------------------------------
+// deepening round: boundary generators, FilterMinWeight / MaxWeight / Len (gf), LongestConsensus with min_cov > 0 (gc)
+//
+//   gf <k> <min> <hexseq>:<count> ...          Push, FilterMinWeight(min), MaxWeight, Len, then everything g shows
+//   gc <k> <float64 bits> <obs> <reads> ...    Push, LongestConsensus(id, min_cov); <obs> is what the real code returned
+//                                              (filled in by Exec through caseOverride; "?" in generated lines): obistats.Mode
+//                                              ranges over a Go map, so with several most frequent weights the outcome is
+//                                              one of several — the model checks that obs is one of them
+
+func c19Bits(f float64) string { return fmt.Sprintf("%016x", math.Float64bits(f)) }
+
+var c19Covs = []float64{0.5, 0.25, 0.75, 1, 0.1, 0.3, 0.9, 1.0 / 3, 0.05, 0.125, 0.6, 0.45, 0.55, 1.5, 2, 3.25, 1e-300, 5e-324, 0.49999999999999994, 0.5000000000000001, 0.9999999999999999}
+
+// a template covered fully by some reads and partially (the middle) by others: low coverage at both ends
+func c19GenCoverage(rng *rand.Rand) (int, [][]byte, []int) {
+	k := 3 + rng.Intn(8)
+	if rng.Intn(4) == 0 {
+		k = 11 + rng.Intn(21)
+	}
+	tl := k + 4 + rng.Intn(3*k+10)
+	tpl := c19RandSeq(rng, tl, "acgt", 0)
+	var reads [][]byte
+	var counts []int
+	reads = append(reads, tpl)
+	counts = append(counts, 1+rng.Intn(4))
+	for r := rng.Intn(5); r > 0; r-- {
+		a := rng.Intn(tl - k + 1)
+		b := a + k + rng.Intn(tl-a-k+1)
+		rd := append([]byte{}, tpl[a:b]...)
+		if rng.Intn(5) == 0 {
+			rd[rng.Intn(len(rd))] = "acgt"[rng.Intn(4)]
+		}
+		reads = append(reads, rd)
+		counts = append(counts, 1+rng.Intn(6))
+	}
+	return k, reads, counts
+}
+
+func c19GenMore(rng *rand.Rand, n int, emit func(string)) {
+	h := func(s string) string { return hx([]byte(s)) }
+	// ---- corpus
+	emit("gc 3 " + c19Bits(0.5) + " ? " + h("acgtcag") + ":4 " + h("cgtca") + ":3") // both ends below half the mode
+	emit("gc 3 " + c19Bits(2) + " ? " + h("acgtcag") + ":4")                        // min_cov > 1: every node below the threshold
+	emit("gc 3 " + c19Bits(1) + " ? " + h("acgtca") + ":4 " + h("acgt") + ":1")     // two most frequent weights (5, 5, 4, 4)
+	emit("gc 3 " + c19Bits(0.9) + " ? " + h("acgtca") + ":4 " + h("acgt") + ":1")
+	emit("gc 3 " + c19Bits(0.5) + " ? " + h("acgtacgt") + ":1") // cycle
+	emit("gc 3 " + c19Bits(0.5) + " ?")                          // empty graph
+	emit("gc 3 " + c19Bits(5e-324) + " ? " + h("acgtcag") + ":4")
+	emit("gc 3 " + c19Bits(1e-300) + " ? " + h("acgtcag") + ":4")
+	emit("gc 3 " + c19Bits(0.5) + " ? " + h("acgtcag") + ":3 " + h("cgtca") + ":1") // 3*0.5+0.5 = 2 exactly
+	emit("gc 4 " + c19Bits(0.5) + " ? " + h("acgt") + ":3")                          // one node
+	emit("gf 3 3 " + h("acgtcag") + ":5 " + h("acgacag") + ":2")
+	emit("gf 3 0 " + h("acgtcag") + ":5 " + h("acgacag") + ":2")
+	emit("gf 3 -1 " + h("acgtcag") + ":5 " + h("acgacag") + ":2")
+	emit("gf 3 8 " + h("acgtcag") + ":5 " + h("acgacag") + ":2")
+	emit("gf 3 1")
+	// bubbles and tips of equal weight (k = 3, 4): the two branches weigh the same
+	emit("g 3 " + h("aacgtcctt") + ":2 " + h("aacgacctt") + ":2")
+	emit("g 4 " + h("aacgtgcctta") + ":1 " + h("aacgtccctta") + ":1")
+	emit("g 3 " + h("aacgtcc") + ":3 " + h("aacgtca") + ":3") // two ends of equal weight
+	emit("g 3 " + h("aacgtcc") + ":3 " + h("tacgtcc") + ":3") // two sources of equal weight
+	emit("g 3 " + h("aacgt") + ":1 " + h("ccgta") + ":1 " + h("ttgca") + ":1") // three components of equal weight
+
+	// ---- reads of exactly k, k+1, k+2 bases; ambiguity codes at the edges of the first and last window
+	ks := []int{2, 3, 4, 5, 15, 16, 17, 30, 31, 32}
+	for i := 0; i < 300*n; i++ {
+		k := ks[rng.Intn(len(ks))]
+		tl := k + rng.Intn(3)
+		if rng.Intn(3) == 0 {
+			tl = 2*k + rng.Intn(3)
+		}
+		tpl := c19RandSeq(rng, tl, "acgt", 0)
+		var reads [][]byte
+		var counts []int
+		nr := 1 + rng.Intn(3)
+		for r := 0; r < nr; r++ {
+			rd := append([]byte{}, tpl...)
+			if r > 0 && rng.Intn(2) == 0 {
+				rd = rd[:k+rng.Intn(len(rd)-k+1)]
+			}
+			if rng.Intn(2) == 0 {
+				edges := []int{0, k - 1, k, len(rd) - k, len(rd) - k - 1, len(rd) - 1, 1}
+				for m := 1 + rng.Intn(2); m > 0; m-- {
+					p := edges[rng.Intn(len(edges))]
+					if p >= 0 && p < len(rd) {
+						rd[p] = c19Amb[rng.Intn(len(c19Amb))]
+					}
+				}
+			}
+			reads = append(reads, rd)
+			counts = append(counts, 1+rng.Intn(3))
+		}
+		emit(fmt.Sprintf("g %d%s", k, c19Reads(reads, counts)))
+	}
+	// ---- bubbles and tips with equal weights
+	for i := 0; i < 300*n; i++ {
+		k := 2 + rng.Intn(5)
+		if rng.Intn(5) == 0 {
+			k = 7 + rng.Intn(25)
+		}
+		tl := 2*k + 1 + rng.Intn(2*k+6)
+		tpl := c19RandSeq(rng, tl, "acgt", 0)
+		c := 1 + rng.Intn(3)
+		reads := [][]byte{tpl}
+		counts := []int{c}
+		for r := 1 + rng.Intn(3); r > 0; r-- {
+			rd := append([]byte{}, tpl...)
+			switch rng.Intn(4) {
+			case 0: // bubble: one substitution far from both ends
+				p := k + rng.Intn(tl-2*k)
+				rd[p] = "acgt"[(strings.IndexByte("acgt", rd[p])+1+rng.Intn(3))%4]
+			case 1: // tip at the end
+				p := tl - 1 - rng.Intn(k)
+				rd[p] = "acgt"[(strings.IndexByte("acgt", rd[p])+1+rng.Intn(3))%4]
+				rd = rd[:p+1]
+			case 2: // tip at the start
+				p := rng.Intn(k)
+				rd[p] = "acgt"[(strings.IndexByte("acgt", rd[p])+1+rng.Intn(3))%4]
+				rd = rd[p:]
+			case 3: // the same read again: every weight doubles
+			}
+			reads = append(reads, rd)
+			counts = append(counts, c)
+		}
+		emit(fmt.Sprintf("g %d%s", k, c19Reads(reads, counts)))
+	}
+	// ---- many reads
+	for i := 0; i < 12*n; i++ {
+		k := 4 + rng.Intn(20)
+		tl := k + 10 + rng.Intn(60)
+		tpl := c19RandSeq(rng, tl, "acgt", 0)
+		nr := 20 + rng.Intn(60)
+		if n > 1 && rng.Intn(3) == 0 {
+			nr = 150 + rng.Intn(150)
+		}
+		var reads [][]byte
+		var counts []int
+		for r := 0; r < nr; r++ {
+			a := rng.Intn(tl - k + 1)
+			b := a + k + rng.Intn(tl-a-k+1)
+			rd := append([]byte{}, tpl[a:b]...)
+			if rng.Intn(6) == 0 {
+				rd[rng.Intn(len(rd))] = "acgt"[rng.Intn(4)]
+			}
+			if rng.Intn(25) == 0 {
+				rd[rng.Intn(len(rd))] = c19Amb[rng.Intn(len(c19Amb))]
+			}
+			reads = append(reads, rd)
+			counts = append(counts, 1+rng.Intn(3))
+		}
+		op := "g"
+		if rng.Intn(3) == 0 {
+			op = "gc " // placeholder replaced below
+		}
+		if op == "g" {
+			emit(fmt.Sprintf("g %d%s", k, c19Reads(reads, counts)))
+		} else {
+			emit(fmt.Sprintf("gc %d %s ?%s", k, c19Bits(c19Covs[rng.Intn(9)]), c19Reads(reads, counts)))
+		}
+	}
+	// ---- the index at the limits of the word: 2k = W, 2k = W-2, sequences of k, k+1 bases, ambiguity at window edges
+	for i := 0; i < 300*n; i++ {
+		w := []int{64, 128, 256}[rng.Intn(3)]
+		sparse := rng.Intn(2)
+		k := w/2 - rng.Intn(3)
+		if sparse == 1 && k%2 == 0 {
+			k-- // the code would make it k+1 > W/2
+		}
+		if rng.Intn(6) == 0 {
+			k = w/2 + 1 // outside the domain (dense: made even -> W/2; sparse: may exceed the word)
+		}
+		keff := k
+		if sparse == 1 && k%2 == 0 {
+			keff++
+		}
+		if sparse == 0 && k%2 == 1 {
+			keff--
+		}
+		l := keff + rng.Intn(3)
+		switch rng.Intn(5) {
+		case 0:
+			l = keff - 1
+		case 1:
+			l = 2*keff + rng.Intn(3)
+		}
+		alpha := "acgt"
+		if rng.Intn(6) == 0 {
+			alpha = "at"
+		}
+		s := c19RandSeq(rng, l, alpha, 0)
+		if rng.Intn(2) == 0 && l > 0 {
+			edges := []int{0, keff - 1, keff, l - keff, l - keff - 1, l - 1}
+			p := edges[rng.Intn(len(edges))]
+			if p >= 0 && p < l {
+				s[p] = c19Amb[rng.Intn(len(c19Amb))]
+			}
+		}
+		emit(fmt.Sprintf("nk %d %d %d %s", w, k, sparse, hx(s)))
+	}
+	// ---- FilterMinWeight
+	for i := 0; i < 400*n; i++ {
+		k, reads, counts := c19GenGraph(rng)
+		if rng.Intn(2) == 0 {
+			k, reads, counts = c19GenCoverage(rng)
+		}
+		min := []int{-1, 0, 1, 2, 2, 3, 3, 4, 5, 7, 10, 25}[rng.Intn(12)]
+		emit(fmt.Sprintf("gf %d %d%s", k, min, c19Reads(reads, counts)))
+	}
+	// ---- LongestConsensus with min_cov > 0
+	for i := 0; i < 900*n; i++ {
+		k, reads, counts := c19GenCoverage(rng)
+		if rng.Intn(3) == 0 {
+			k, reads, counts = c19GenGraph(rng)
+		}
+		mc := c19Covs[rng.Intn(len(c19Covs))]
+		switch rng.Intn(4) {
+		case 0:
+			mc = rng.Float64()
+		case 1:
+			mc = float64(1+rng.Intn(31)) / 32
+		}
+		if mc <= 0 {
+			mc = 0.5
+		}
+		emit(fmt.Sprintf("gc %d %s ?%s", k, c19Bits(mc), c19Reads(reads, counts)))
+	}
+}
+
+func c19ParseReads(f []string) (reads [][]byte, counts []int, ok bool) {
+	for _, rc := range f {
+		p := strings.Split(rc, ":")
+		if len(p) != 2 {
+			return nil, nil, false
+		}
+		s, ok := unhx(p[0])
+		cnt, err := strconv.Atoi(p[1])
+		if !ok || err != nil || cnt < 1 || cnt > 1000000 {
+			return nil, nil, false
+		}
+		reads = append(reads, s)
+		counts = append(counts, cnt)
+	}
+	return reads, counts, true
+}
+
+// uint(float64(mode)*mc + 0.5) recomputed with arbitrary-precision floats rounded to 53 bits after each operation
+func c19RefThreshold(mode uint, mc float64) uint64 {
+	nf := func() *big.Float { return new(big.Float).SetPrec(53).SetMode(big.ToNearestEven) }
+	x := nf().SetUint64(uint64(mode))
+	p := nf().Mul(x, new(big.Float).SetFloat64(mc))
+	q := nf().Add(p, big.NewFloat(0.5))
+	u, _ := q.Uint64()
+	return u
+}
+
+func c19DecodePathRef(path []uint64, k int) string {
+	if len(path) == 0 {
+		return ""
+	}
+	s := c19Str(path[0], k)
+	for _, n := range path[1:] {
+		s += string("acgt"[n&3])
+	}
+	return s
+}
+
+func c19Cov(k int, mc float64, reads [][]byte, counts []int, fail func(sig, format string, a ...any)) (obs string, res string) {
+	g := obikmer.MakeDeBruijnGraph(k)
+	for i, r := range reads {
+		s := obiseq.NewBioSequence(fmt.Sprintf("r%d", i), append([]byte{}, r...), "")
+		s.SetCount(counts[i])
+		if c19Try(func() { g.Push(s) }) {
+			return "push-panic", "panic"
+		}
+	}
+	nodes := g.VerifNodes()
+	maxw := uint(0)
+	for _, w := range nodes {
+		if w > maxw {
+			maxw = w
+		}
+	}
+	if g.MaxWeight() != int(maxw) {
+		fail("maxweight.value", "MaxWeight = %d, largest weight %d", g.MaxWeight(), maxw)
+	}
+	if g.Len() != len(nodes) {
+		fail("len.value", "Len = %d, %d nodes", g.Len(), len(nodes))
+	}
+	var cons *obiseq.BioSequence
+	var cerr error
+	if c19Try(func() { cons, cerr = g.LongestConsensus("x", mc) }) {
+		obs = "panic"
+	} else if cerr != nil || cons == nil {
+		obs = "err"
+	} else {
+		obs = hx(cons.Sequence())
+	}
+	// ---- reference: the untrimmed heaviest path (checked by the g operation), every value Mode can return
+	var path []uint64
+	if len(nodes) > 0 && !c19Try(func() { path = g.HaviestPath() }) {
+		wp := make([]uint, len(path))
+		occ := map[uint]int{}
+		top := 0
+		for i, n := range path {
+			wp[i] = nodes[n]
+			occ[wp[i]]++
+			if occ[wp[i]] > top {
+				top = occ[wp[i]]
+			}
+		}
+		var modes []uint
+		for v, c := range occ {
+			if c == top {
+				modes = append(modes, v)
+			}
+		}
+		if len(path) == 0 {
+			modes = []uint{0}
+		}
+		if len(modes) > 1 {
+			stat("gc:mode-tie")
+		}
+		refs := map[string]bool{}
+		for _, md := range modes {
+			mp := c19RefThreshold(md, mc)
+			if native := uint64(uint(float64(md)*mc + 0.5)); native != mp {
+				stat("gc:native-float-differs")
+			}
+			from, to := 0, len(path)
+			for from < len(path) && uint64(wp[from]) < mp {
+				from++
+			}
+			for to > 0 && uint64(wp[to-1]) < mp {
+				to--
+			}
+			switch {
+			case from > to:
+				refs["panic"] = true
+			case from == to:
+				refs["err"] = true
+			default:
+				refs[hx([]byte(c19DecodePathRef(path[from:to], k)))] = true
+			}
+			if mc <= 1 && from > to {
+				fail("oracle.inconsistent", "min_cov <= 1 but every node is below the threshold %d (mode %d)", mp, md)
+			}
+		}
+		if len(refs) > 1 {
+			stat("gc:mode-tie-changes-outcome")
+		}
+		if !refs[obs] {
+			fail("cov.value", "LongestConsensus(min_cov=%v) = %s, expected one of %v (path weights %v)", mc, obs, refs, wp)
+		}
+		full := c19DecodePathRef(path, k)
+		switch obs {
+		case "panic":
+			stat("gc:slice-panic")
+			if mc <= 1 {
+				fail("cov.panic", "LongestConsensus(min_cov=%v <= 1) panics", mc)
+			}
+		case "err":
+			stat("gc:err")
+		default:
+			o, _ := unhx(obs)
+			if !strings.Contains(full, string(o)) {
+				fail("cov.not-a-substring", "trimmed consensus %s is not a part of the full consensus %s", o, full)
+			}
+			if len(o) < len(full) {
+				stat("gc:trimmed")
+			} else {
+				stat("gc:untrimmed")
+			}
+		}
+	} else if len(nodes) > 0 {
+		stat("gc:heaviest-panic")
+	}
+	return obs, fmt.Sprintf("mw=%d len=%d cons=%s", g.MaxWeight(), g.Len(), obs)
+}
+
+// ---------------------------------------------------------------------------------------------
+//   km <W> <k> <sparse> <maxocc> <mincount> <self> <ord> <hexseq> ...
+//        NewKmerMap[UintW](refs, k, sparse, maxocc), Len, Query(last sequence), FilterMinCount(mincount); self = 1: the
+//        query (the last sequence) is also the last reference; <ord> = rank of the address of every sequence (Query sorts
+//        pointers by address), filled in by Exec ("?" in generated lines)
+//   result: len=<Len> m=<id:count,...> f=<id:count,... after FilterMinCount>
+
+func c19KM[T obifp.FPUint[T]](k uint, sparse bool, maxocc, mincount int, self bool, seqs [][]byte) (ord []int, length int, m, f map[int]int) {
+	all := make(obiseq.BioSequenceSlice, len(seqs))
+	id := map[*obiseq.BioSequence]int{}
+	for i, s := range seqs {
+		all[i] = obiseq.NewBioSequence(fmt.Sprintf("s%d", i), append([]byte{}, s...), "")
+		id[all[i]] = i
+	}
+	refs := all
+	if !self {
+		refs = all[:len(all)-1]
+	}
+	km := obikmer.NewKmerMap[T](refs, k, sparse, maxocc)
+	length = km.Len()
+	match := km.Query(all[len(all)-1])
+	m = map[int]int{}
+	for s, n := range match {
+		m[id[s]] = n
+	}
+	match.FilterMinCount(mincount)
+	f = map[int]int{}
+	for s, n := range match {
+		f[id[s]] = n
+	}
+	if match.Len() != len(f) {
+		f[-1] = match.Len()
+	}
+	// address ranks
+	idxs := make([]int, len(all))
+	for i := range idxs {
+		idxs[i] = i
+	}
+	sort.Slice(idxs, func(a, b int) bool {
+		return uintptr(unsafe.Pointer(all[idxs[a]])) < uintptr(unsafe.Pointer(all[idxs[b]]))
+	})
+	ord = make([]int, len(all))
+	for r, i := range idxs {
+		ord[i] = r
+	}
+	runtime.KeepAlive(all)
+	return
+}
+
+func c19ShowMatch(m map[int]int) string {
+	ks := make([]int, 0, len(m))
+	for i := range m {
+		ks = append(ks, i)
+	}
+	sort.Ints(ks)
+	p := make([]string, len(ks))
+	for j, i := range ks {
+		p[j] = fmt.Sprintf("%d:%d", i, m[i])
+	}
+	if len(p) == 0 {
+		return "-"
+	}
+	return strings.Join(p, ",")
+}
+
+func c19RunKM(w int, k uint, sparse bool, maxocc, mincount int, self bool, seqs [][]byte) ([]int, int, map[int]int, map[int]int) {
+	switch w {
+	case 64:
+		return c19KM[obifp.Uint64](k, sparse, maxocc, mincount, self, seqs)
+	case 128:
+		return c19KM[obifp.Uint128](k, sparse, maxocc, mincount, self, seqs)
+	}
+	return c19KM[obifp.Uint256](k, sparse, maxocc, mincount, self, seqs)
+}
+
+func c19ExecKM(f []string, fail func(sig, format string, a ...any)) string {
+	w, e1 := strconv.Atoi(f[1])
+	k, e2 := strconv.Atoi(f[2])
+	maxocc, e3 := strconv.Atoi(f[4])
+	mincount, e4 := strconv.Atoi(f[5])
+	if e1 != nil || e2 != nil || e3 != nil || e4 != nil || (w != 64 && w != 128 && w != 256) || k < 1 || k > 200 ||
+		(f[3] != "0" && f[3] != "1") || (f[6] != "0" && f[6] != "1") || len(f) < 9 || maxocc < -5 || maxocc > 1000 || mincount < -5 || mincount > 100000 {
+		return "bad-op"
+	}
+	sparse, self := f[3] == "1", f[6] == "1"
+	var seqs [][]byte
+	for _, h := range f[8:] {
+		s, ok := unhx(h)
+		if !ok {
+			return "bad-op"
+		}
+		seqs = append(seqs, s)
+	}
+	keff := k
+	if sparse && k%2 == 0 {
+		keff++
+	}
+	if !sparse && k%2 == 1 {
+		keff--
+	}
+	if 2*keff > w || keff < 1 {
+		caseTrivial = true
+	}
+	var (
+		ord    []int
+		length int
+		m, fm  map[int]int
+	)
+	if c19Try(func() { ord, length, m, fm = c19RunKM(w, uint(k), sparse, maxocc, mincount, self, seqs) }) {
+		if 2*keff <= w && keff >= 1 {
+			fail("km.panic", "NewKmerMap/Query panics for k=%d on %d-bit words", keff, w)
+		}
+		return "panic"
+	}
+	os := make([]string, len(ord))
+	for i, r := range ord {
+		os[i] = strconv.Itoa(r)
+	}
+	caseOverride = strings.Join(f[:7], " ") + " " + strings.Join(os, ",") + " " + strings.Join(f[8:], " ")
+	if self {
+		stat("km:self")
+		if _, ok := m[len(seqs)-1]; ok {
+			stat("km:self-query-reported")
+		} else {
+			stat("km:self-query-not-reported")
+		}
+	}
+	// ---- oracle (naive canonical k-mers on strings): without occurrence limit, a reference other than the query is
+	// reported iff it shares a canonical k-mer with the query; the reverse complement of the query gives the same answer
+	if 2*keff <= w && keff >= 1 && maxocc == -1 {
+		lows := make([][]byte, len(seqs))
+		for i, s := range seqs {
+			lows[i] = c19Lower(s)
+		}
+		q := len(seqs) - 1
+		qk := c19NaiveCanon(lows[q], keff, sparse)
+		nrefs := len(seqs)
+		if !self {
+			nrefs--
+		}
+		shared := map[int]int{}
+		for i := 0; i < nrefs; i++ {
+			rk := map[string]int{}
+			for _, x := range c19NaiveCanon(lows[i], keff, sparse) {
+				rk[x.Text(16)]++
+			}
+			for _, x := range qk {
+				shared[i] += rk[x.Text(16)]
+			}
+		}
+		for i := 0; i < nrefs; i++ {
+			_, got := m[i]
+			if i == q {
+				continue // the query itself: reported or not according to its address
+			}
+			if got != (shared[i] > 0) {
+				fail("km.match-set", "reference %d shares %d canonical k-mer occurrences with the query, reported = %v", i, shared[i], got)
+			} else if got {
+				if m[i] == shared[i]+1 {
+					stat("km:count=shared+1")
+				} else {
+					stat("km:count-other")
+				}
+			}
+		}
+		if !self {
+			rcq := append(append([][]byte{}, seqs[:q]...), []byte(c19RcLoose(lows[q])))
+			var m2 map[int]int
+			if !c19Try(func() { _, _, m2, _ = c19RunKM(w, uint(k), sparse, maxocc, mincount, self, rcq) }) {
+				if c19ShowMatch(m2) != c19ShowMatch(m) {
+					fail("km.strand", "Query(sequence) = %s, Query(reverse complement) = %s", c19ShowMatch(m), c19ShowMatch(m2))
+				}
+			}
+		}
+	}
+	for i, n := range m {
+		if (n >= mincount) != (fm[i] == n && fm[i] != 0) && n != 0 {
+			fail("km.filter", "FilterMinCount(%d): entry %d:%d kept = %v", mincount, i, n, fm[i] != 0)
+		}
+	}
+	return fmt.Sprintf("len=%d m=%s f=%s", length, c19ShowMatch(m), c19ShowMatch(fm))
+}
+
+func c19GenKM(rng *rand.Rand, n int, emit func(string)) {
+	h := func(s string) string { return hx([]byte(s)) }
+	emit("km 128 4 0 -1 2 0 ? " + h("acgtacgt") + " " + h("acgtgg") + " " + h("acgt"))
+	emit("km 128 4 0 -1 2 1 ? " + h("acgtacgt") + " " + h("acgtgg") + " " + h("acgt"))
+	emit("km 128 4 0 1 0 0 ? " + h("acgtacgt") + " " + h("acgtgg") + " " + h("ccacgtaa") + " " + h("acgt"))
+	emit("km 128 4 0 0 0 0 ? " + h("acgtacgt") + " " + h("acgt"))
+	emit("km 64 5 1 -1 3 0 ? " + h("acgtnacgtta") + " " + h("taacgt") + " " + h("aacgtta"))
+	emit("km 128 4 0 -1 1 0 ? " + h("acgt"))
+	emit("km 128 4 0 -1 1 1 ? " + h("acgt"))
+	emit("km 64 32 0 -1 1 0 ? " + h(strings.Repeat("acgtgcatgcaatgcc", 3)) + " " + h(strings.Repeat("acgtgcatgcaatgcc", 2)))
+	for i := 0; i < 500*n; i++ {
+		w := []int{64, 128, 128, 256}[rng.Intn(4)]
+		k := 2 + rng.Intn(7)
+		if rng.Intn(6) == 0 {
+			k = 2 + rng.Intn(w/2-1)
+		}
+		sparse := rng.Intn(2)
+		tl := k + 2 + rng.Intn(4*k+10)
+		alpha := "acgt"
+		if rng.Intn(5) == 0 {
+			alpha = "ac"
+		}
+		tpl := c19RandSeq(rng, tl, alpha, 0)
+		nr := 1 + rng.Intn(6)
+		var seqs []string
+		for r := 0; r <= nr; r++ {
+			s := append([]byte{}, tpl...)
+			switch rng.Intn(5) {
+			case 0:
+				s = c19RandSeq(rng, rng.Intn(3*k+4), alpha, 0) // unrelated
+			case 1:
+				s = []byte(c19RcLoose(s)) // the other strand
+			case 2:
+				a := rng.Intn(len(s))
+				s = s[a : a+rng.Intn(len(s)-a+1)]
+			}
+			for m := rng.Intn(3); m > 0 && len(s) > 0; m-- {
+				s[rng.Intn(len(s))] = alpha[rng.Intn(len(alpha))]
+			}
+			if rng.Intn(8) == 0 && len(s) > 0 {
+				s[rng.Intn(len(s))] = c19Amb[rng.Intn(len(c19Amb))]
+			}
+			seqs = append(seqs, hx(s))
+		}
+		maxocc := -1
+		if rng.Intn(3) == 0 {
+			maxocc = rng.Intn(5)
+		}
+		emit(fmt.Sprintf("km %d %d %d %d %d %d ? %s", w, k, sparse, maxocc, rng.Intn(6), rng.Intn(2), strings.Join(seqs, " ")))
+	}
 }
